@@ -66,6 +66,8 @@ bool env_is_emulated_tcp(int fd);
 int64_t env_now_ns(void);
 void env_advance_ns(int64_t delta);
 
+void env_reset_deviations(void);
+
 /* ledgers */
 int  env_sockopt_get(int fd, int level, int opt, int *val);   /* 0 if it was ever set */
 int  env_sockopt_log_count(void);
